@@ -68,6 +68,8 @@ fn main() {
             let arr = v.get("choices").cloned().unwrap_or(v);
             let choices: Vec<u32> = serde_json::from_value(arr).unwrap();
             let mut ctx = Ctx::default();
+            runner::start_case_watchdog();
+            runner::case_started();
             let out = (e.run)(&choices, tier, &mut ctx);
             if let Some(c) = &out.case {
                 println!("{}", serde_json::to_string_pretty(c.get("shown").unwrap_or(c)).unwrap());
